@@ -251,6 +251,10 @@ class C10(PropertyCheck):
             "off the command line, all at once and one at a time, for every policy; --pad-mode reflect; an utterance of "
             "10**5+k frames cut near its end (default names wider than their field) with and without padding. "
             "thorough adds 160 random runs. "
+            "audit additions: ref_lens beyond R and negative for the token chunker; wrong numbers of slices / ref_lens / "
+            "in_lens (also for 'ref', where the code has no explicit test) through the model's shape guard; directories "
+            "with an utterance of 0 frames (alone and next to others) x policy x validity; directories whose ref/ files "
+            "hold token ids only (1-D) x policy x validity ('ref' must refuse; 'fixed'/'ali': known finding). "
             "non-trivial: some configuration returns >= 2 windows, or keeps >= 1 token and drops >= 1, or a "
             "directory run writes >= 2 chunks; distinct by the case json")
     assumptions = [
@@ -482,6 +486,9 @@ class C10(PropertyCheck):
             R = len(row)
             N = len(slices)
             lens = [None, [R] * N] + ([[rng.randint(0, R) for _ in range(N)]] if R else [])
+            # (audit) C10_tokens_filter is stated for every integer ref_lens: beyond R (= R) and negative (= 0) too
+            lens.append([rng.choice([R + 1, R + rng.randint(1, 5), -1, -rng.randint(1, 5), rng.randint(0, R)])
+                         for _ in range(N)])
             return {"kind": "tokens", "refs": [row] * N, "partials": [True, False], "retains": [True, False],
                     "slices_opts": [slices], "ref_lens_opts": lens, "dtype": pf["dtype"],
                     "lens_dtype": pf["lens_dtype"]}
@@ -509,7 +516,7 @@ class C10(PropertyCheck):
                     return [rng.choice([-far - 1, 0, 2, far - 1, far]), rng.choice([-far, 3, far, far + 2, far + 3])]
                 return [rng.randint(-2, 6), rng.randint(-2, 8)]
             sls = [[sl() for _ in range(N)] for _ in range(3)]
-            lens = [None, [rng.randint(0, R) for _ in range(N)]]
+            lens = [None, [rng.randint(0, R) for _ in range(N)], [rng.randint(-2, R + 2) for _ in range(N)]]
             yield {"kind": "tokens", "refs": refs, "partials": [True, False], "retains": [True, False],
                    "slices_opts": sls, "ref_lens_opts": lens, "dtype": pf["dtype"], "lens_dtype": pf["lens_dtype"]}
 
@@ -520,6 +527,19 @@ class C10(PropertyCheck):
         yield dict(base, policy="ali", rows=[[0, 1, 1], [0, 0, 0]], lens_opts=[{"in_lens": [3], "other_lens": None}])
         yield dict(base, policy="ref", rows=[[[0, 0, 1]] * 3, [[0, 1, 2]] * 3],
                    lens_opts=[{"in_lens": [3, 3], "other_lens": [3]}])
+        # (audit) 'ref' has no explicit test of in_lens: a wrong-sized vector must still fail (view / gather), with
+        # other_lens given and omitted; too short and too long
+        yield dict(base, policy="ref", rows=[[[0, 0, 1]] * 3, [[0, 1, 2]] * 3],
+                   lens_opts=[{"in_lens": [3], "other_lens": [3, 3]}, {"in_lens": [3], "other_lens": None},
+                              {"in_lens": [3, 3, 3], "other_lens": None}, {"in_lens": [1, 2, 3], "other_lens": [3, 3]}])
+        yield dict(base, policy="fixed", lens_opts=[{"in_lens": [1], "other_lens": None}])
+        yield dict(base, policy="ali", rows=[[0, 1, 1], [0, 0, 0]], lens_opts=[{"in_lens": [3, 3, 3], "other_lens": None}])
+        # (audit) the token chunker's shape checks, through the model (`chunkTokensEntry`, C10_tokens_entry): the
+        # number of slices and of lengths must be the batch size; the well-shaped options of the same case must work
+        refs = [[[1, 0, 2], [2, 2, 4]], [[3, 1, 3], [4, -1, 2]]]
+        yield {"kind": "tokens", "refs": refs, "partials": [True, False], "retains": [True, False],
+               "slices_opts": [[[0, 3], [1, 4]], [[0, 3]], [[0, 3], [1, 4], [2, 5]]],
+               "ref_lens_opts": [None, [2, 1], [2], [2, 1, 1]]}
         for what in ("policy", "window_type", "lobe", "ali_ndim", "ref_ndim", "ref_last", "ndim1", "tok_shape",
                      "tok_slices", "tok_lens", "tok_2d"):
             yield {"kind": "malformed", "what": what}
@@ -571,7 +591,7 @@ class C10(PropertyCheck):
         before = refs.tolist()
         res = []
         for p, r, si, li in grid_tokens(case):
-            sl = lay_out(torch.tensor(case["slices_opts"][si], dtype=dt).reshape(N, 2),
+            sl = lay_out(torch.tensor(case["slices_opts"][si], dtype=dt).reshape(-1, 2),
                          "strided" if layout == "strided" else None)
             rl = lay_out(_lt(case["ref_lens_opts"][li], ld), layout)
             try:
@@ -675,7 +695,10 @@ class C10(PropertyCheck):
                 elif a["windows"] != m:
                     out.append(f"{self.cfg_str(case, g)}: impl {a['windows']} model {m}")
             else:
-                if "error" in a:
+                if m == "error:shape":
+                    if a.get("error") != "RuntimeError":
+                        out.append(f"{self.cfg_str(case, g)}: model says shape error, impl {a}")
+                elif "error" in a:
                     out.append(f"{self.cfg_str(case, g)}: impl raised {a['error']} ({a.get('message')})")
                 elif a["lens"] != m["lens"] or a["chunks"] != m["chunks"]:
                     out.append(f"{self.cfg_str(case, g)}: impl {a['chunks']} model {m['chunks']}")
@@ -728,6 +751,10 @@ class C10(PropertyCheck):
         for g, a, b in zip(grid_tokens(case), impl["results"], model["results"]):
             p, r, si, li = g
             spec = b["spec"]
+            if spec is None:      # wrong number of slices / lengths: the documented RuntimeError
+                if a.get("error") != "RuntimeError":
+                    fails.append((f"{self.cfg_str(case, g)}: wrong-shaped slices / ref_lens accepted: {a}", None))
+                continue
             if "error" in a:
                 fails.append((f"{self.cfg_str(case, g)}: raised {a['error']} ({a.get('message')})", None))
                 continue
@@ -933,7 +960,9 @@ class C10(PropertyCheck):
                         c[k] = [v]
                         yield c
             N = len(case["refs"])
-            if N > 1:
+            well_shaped = all(len(sl) == N for sl in case["slices_opts"]) and \
+                all(l is None or len(l) == N for l in case["ref_lens_opts"])
+            if N > 1 and well_shaped:
                 for keep in range(N):
                     c = dict(case)
                     c["refs"] = [case["refs"][keep]]
